@@ -1,0 +1,16 @@
+//go:build verif
+
+package goast
+
+import "go/ast"
+
+// VerifStep, when set, observes the steps of ResolveIdent on a shared resolver (build tag verif
+// only). It is called while the step's effect is in place and, for the steps inside the locked
+// section, while the lock is still held. It may block, which lets a test force an interleaving.
+var VerifStep func(r *DecoratorResolver, file *ast.File, step string)
+
+func (r *DecoratorResolver) verifStep(file *ast.File, step string) {
+	if VerifStep != nil {
+		VerifStep(r, file, step)
+	}
+}
